@@ -322,3 +322,86 @@ def top_keys(name, d):
         dummy.append(0 if ty_ is int else (False if ty_ is bool else ("a" if ty_ is str else 0)))
     s = t.mk(d, *dummy)
     return set(s) if isinstance(s, dict) else set()
+
+
+TWO_LEVEL = ("arr_arr_int", "arr_obj_int", "obj_arr_int", "obj_obj_int")
+SPLIT = {"obj_int": ["obj_int#01", "obj_int#2"], "arr_scalar": ["arr_scalar#01", "arr_scalar#2"]}
+
+
+def gen_conditions(module, factory, tier, seed, groups=("T1", "T2", "T3", "T4"), rate=None, rest=True, only=None, witness_rate=0.15,
+                   extra_params=None, tags_from_template=True, timeout_scale=1.0, pairs_quick=30, heavy_all_drafts=False):
+    """Standard cube-and-conquer enumeration of the template table for one property.
+    rate: per-group sampling probability in the quick tier (seeded)."""
+    import random
+    rng = random.Random(seed)
+    quick = tier == "quick"
+    rate = dict({"T1": 1.0, "T2": 1.0, "T3": 0.12, "T4": 1.0}, **(rate or {}))
+    out = []
+
+    def cond(t, d, kind, pair=None, L=2, N=2, N2=None, tags=None, timeout=300):
+        if tags is None:
+            tags = t.tags_for(kind) if (tags_from_template and pair is None and t.group != "T3") else ()
+        cid = "%s/d%d/%s%s" % (t.name, d, kind, ("+" + pair) if pair else "")
+        if (L, N, N2) != (2, 2, None):
+            cid += "[L%d,N%d%s]" % (L, N, ",N2=%d" % N2 if N2 is not None else "")
+        wit = list(tags) if (kind != "rest" and (not quick or rng.random() < witness_rate)) else []
+        params = dict(name=t.name, draft=d, kind=kind, pair=pair, L=L, N=N, N2=N2, tags=list(tags))
+        params.update(extra_params or {})
+        out.append(dict(id=cid, module=module, factory=factory, params=params, timeout=int(timeout * timeout_scale), tags=list(tags),
+                        witness=wit, wtimeout=60))
+
+    for t in TEMPLATES:
+        if only is not None and not only(t):
+            continue
+        if t.group not in groups:
+            continue
+        heavy_draft = rng.choice(list(t.drafts))
+        for d in t.drafts:
+            if quick and rng.random() >= rate.get(t.group, 1.0) and t.group != "T3":
+                continue
+            if t.group == "T1":
+                for k in t.kinds:
+                    cond(t, d, k)
+                if rest and rest_type(t.kinds) is not None and (not quick or t.name not in ("enum", "const", "type", "type_list")):
+                    cond(t, d, "rest", tags=())
+            elif t.group == "T2":
+                for k in t.kinds:
+                    for kk in SPLIT.get(k, [k]):
+                        if quick and kk.endswith("#2") and d != heavy_draft and not heavy_all_drafts:
+                            continue
+                        cond(t, d, kk, timeout=900)
+                if rest and rest_type(t.kinds) is not None and not (quick and t.name == "g_enum_type"):
+                    cond(t, d, "rest", tags=(), timeout=600)
+            elif t.group == "T3":
+                k = t.kinds[0]
+                if quick:
+                    if rng.random() < rate["T3"]:
+                        if k in TWO_LEVEL:
+                            cond(t, d, k, L=1, N=2, N2=1, timeout=600)
+                        elif k == "obj_int":
+                            cond(t, d, "obj_int#01", timeout=600)
+                        else:
+                            cond(t, d, k, timeout=600)
+                else:
+                    if k in TWO_LEVEL:
+                        cond(t, d, k, L=2, N=2, N2=1, timeout=2400)
+                    else:
+                        cond(t, d, k, timeout=1800)
+    if "T4" in groups:
+        pairs = pair_names()
+        if quick:
+            pairs = rng.sample(pairs, pairs_quick)
+        for a, b in pairs:
+            ta, tb = BY_NAME[a], BY_NAME[b]
+            if only is not None and not (only(ta) and only(tb)):
+                continue
+            ds = [d for d in ta.drafts if d in tb.drafts]
+            if quick and ds:
+                ds = [rng.choice(ds)]
+            for d in ds:
+                if top_keys(a, d) & top_keys(b, d):
+                    continue
+                ks = [k for k in ta.kinds if k in tb.kinds]
+                for k in ks[:1]:
+                    cond(ta, d, SPLIT.get(k, [k])[0] if quick else k, pair=b, timeout=900 if quick else 2400)
+    return out
